@@ -159,6 +159,23 @@ theorem views_at_documented_source (s y : Bool) :
     isSend structs (.adt Id.TensorView [.leaf s y, .mutRef (.adt Id.Tensor [.leaf s y])]) = some s := by
   cases s <;> cases y <;> decide
 
+/-- every tensor / matrix view adaptor over a *borrowed* container: through a shared reference the
+    container itself crosses the thread boundary (`&Tensor<T> : Send ⇔ T : Sync`) while the adaptor's
+    own `PhantomData<T>` marker still needs `T : Send`; through a mutable reference it is as `T` -/
+theorem views_at_reference_sources (s y : Bool) :
+    (∀ id ∈ [Id.TensorView, Id.TensorAccess, Id.TensorTranspose, Id.TensorIndex, Id.TensorExpansion,
+        Id.TensorRange, Id.TensorMask, Id.TensorRename, Id.TensorReverse],
+      isSend structs (.adt id [.leaf s y, .ref (.adt Id.Tensor [.leaf s y])]) = some (s && y) ∧
+      isSync structs (.adt id [.leaf s y, .ref (.adt Id.Tensor [.leaf s y])]) = some y ∧
+      isSend structs (.adt id [.leaf s y, .mutRef (.adt Id.Tensor [.leaf s y])]) = some s ∧
+      isSync structs (.adt id [.leaf s y, .mutRef (.adt Id.Tensor [.leaf s y])]) = some y) ∧
+    (∀ id ∈ [Id.MatrixView, Id.MatrixRange, Id.MatrixReverse],
+      isSend structs (.adt id [.leaf s y, .ref (.adt Id.Matrix [.leaf s y])]) = some (s && y) ∧
+      isSync structs (.adt id [.leaf s y, .ref (.adt Id.Matrix [.leaf s y])]) = some y ∧
+      isSend structs (.adt id [.leaf s y, .mutRef (.adt Id.Matrix [.leaf s y])]) = some s ∧
+      isSync structs (.adt id [.leaf s y, .mutRef (.adt Id.Matrix [.leaf s y])]) = some y) := by
+  cases s <;> cases y <;> decide
+
 theorem iterators_at_documented_source (s y : Bool) :
     (∀ id ∈ [Id.TensorOwnedIterator, Id.TensorReferenceMutIterator],
       isSend structs (.adt id [.leaf s y, .adt Id.Tensor [.leaf s y]]) = some s ∧
